@@ -21,6 +21,12 @@ def run(ctx):
         Wd.carrier_programs(5, limit=40 if q else None, rng=ctx.rng) + \
         (Wd.carrier_programs(4, ("space", [16, 8, 0], True)) + Wd.carrier_programs(6, limit=300, rng=ctx.rng) if not q else [])
     _world.validate_programs(ctx, progs, "3..6 carriers of the same component types join, then leave in every order (each permutation), first leaver re-joins")
+    # systems that make agents join and leave while a timestep is in progress (composition, Core_Trace.tla): the listings are
+    # projected after every such operation, i.e. also in the middle of timesteps
+    from ..drivers import core as CO
+    progs = [CO.random_program(ctx.rng, length=ctx.rng.choice([8, 14])) for _ in range(60 if q else 600)]
+    ctx.validate("Core_Trace.tla", "Core_Trace.cfg", progs, CO.run_program, source="population changed by systems in the middle of timesteps "
+                 "(composition Scheduler x World)", expect_clean=True, chunk=5)
     n = 250 if q else 2500
     runs = _world.random_runs(ctx, n, kinds=ALLK, mods="clean", length=50, weights=NOQ, n_ids=5, guests=True, late_install=True)
     _world.validate_runs(ctx, runs, "random histories, components changed only while not resident, 5 world kinds, 2 models")
